@@ -7,6 +7,7 @@ package attester
 
 //@ func NewDuty
 //@   ensures result1 == nil ==> result0 != nil && fresh(result0)
+//@   ensures result1 == nil ==> result0.slot == slot && result0.validatorIndices == validatorIndices && result0.committeeIndices == committeeIndices && result0.validatorCommitteeIndices == validatorCommitteeIndices && result0.committeeLengths == committeeLengths
 //@   ensures result1 != nil ==> result0 == nil
 //@   modifies nothing
 //@
@@ -20,11 +21,15 @@ package attester
 //@     // everything the loop appends to or stores into was allocated here
 //@     invariant forall s phase0.Slot :: fresh(validatorIndices[s]) && fresh(committeeIndices[s]) && fresh(validatorCommitteeIndices[s])
 //@     invariant forall s phase0.Slot :: in(committeeLengths, s) ==> fresh(committeeLengths[s])
+//@     // the per-slot arrays grow together
+//@     invariant forall s phase0.Slot :: len(committeeIndices[s]) == len(validatorIndices[s]) && len(validatorCommitteeIndices[s]) == len(validatorIndices[s])
 //@   loop 2
 //@     freshwrites
-//@     invariant forall k int :: 0 <= k && k < len(duties) ==> duties[k] != nil
+//@     invariant forall k int :: 0 <= k && k < len(duties) ==> duties[k] != nil && len(duties[k].committeeIndices) == len(duties[k].validatorIndices) && len(duties[k].validatorCommitteeIndices) == len(duties[k].validatorIndices)
 //@   ensures result1 == nil
 //@   ensures forall k int :: 0 <= k && k < len(result0) ==> result0[k] != nil
+//@   // the parallel arrays of every duty have one entry per validator
+//@   ensures forall k int :: 0 <= k && k < len(result0) ==> len(result0[k].committeeIndices) == len(result0[k].validatorIndices) && len(result0[k].validatorCommitteeIndices) == len(result0[k].validatorIndices)
 //@   // the duties handed in are sorted in place
 //@   modifies contents(attesterDuties)
 //@
